@@ -73,9 +73,11 @@ static inline size_t size_near(ByteSource& in, size_t lo, size_t cap, std::initi
 // ---- mpz glue (no arithmetic entry point of the library is used here) --------
 static inline void mpz_from_limbs(mpz_ptr z, const uint64_t* p, size_t n, bool neg) {
   while (n && p[n - 1] == 0) n--;
-  if (n == 0) { z->_mp_size = 0; return; }
+  // limbs between the size and the allocation hold unspecified values: poison them, so that code which reads a stale limb shows
+  if (n == 0) { z->_mp_size = 0; for (int i = 0; i < z->_mp_alloc; i++) z->_mp_d[i] = 0xdeadbeefdeadbeefull; return; }
   if ((size_t)z->_mp_alloc < n) _mpz_realloc(z, (mp_size_t)n);
   memcpy(z->_mp_d, p, n * 8); z->_mp_size = neg ? -(int)n : (int)n;
+  for (size_t i = n; i < (size_t)z->_mp_alloc; i++) z->_mp_d[i] = 0xdeadbeefdeadbeefull;
 }
 static inline void mpz_from_int(mpz_ptr z, const Int& a) { mpz_from_limbs(z, a.m.data(), a.m.size(), a.neg); }
 static inline Int int_from_mpz(mpz_srcptr z) {
